@@ -81,6 +81,35 @@ func main() {
 	}
 	v := report.Decide(*prop, *tier, results, known)
 	extra := ctx.Extra()
+	if *tier == "thorough" && *only == "" && os.Getenv("REDACTCHECK_NO_SELFTEST") == "" {
+		// second load for GOARCH=386 (covers build-tagged and size-dependent code)
+		if p386, err := load.Load(*repo, "386", 10); err != nil {
+			fmt.Printf("UNDECIDED property=%s cannot load with GOARCH=386: %v\n", *prop, err)
+			os.Exit(2)
+		} else {
+			ctx386 := &rules.Ctx{P: p386, Tier: "quick", Oracle: *oracle}
+			var r386 []*report.Result
+			for _, id := range ids {
+				for _, r := range rules.Registry[id](ctx386) {
+					r.Rule += "@386"
+					r386 = append(r386, r)
+				}
+			}
+			v386 := report.Decide(*prop, *tier, r386, known)
+			v.Results = append(v.Results, r386...)
+			v.Violations = append(v.Violations, v386.Violations...)
+			v.Undecided = append(v.Undecided, v386.Undecided...)
+			v.Vacuous = append(v.Vacuous, v386.Vacuous...)
+			extra["goarch_386_functions"] = len(p386.ModuleFunctions())
+		}
+		self, _ := os.Executable()
+		st, weak := summariseSelfTest(runSelfTest(self, *repo, *verif, *oracle, *prop))
+		extra["selftest"] = st
+		for _, w := range weak {
+			fmt.Printf("SELFTEST-WEAK property=%s %s\n", *prop, w)
+		}
+		fmt.Printf("  self-test: %v mutants, %v killed, %v survived, %v skipped\n", st["mutants"], st["killed"], st["survived"], st["skipped"])
+	}
 	code := v.Emit(*verif+"/evidence", time.Since(start).Seconds(), seed, extra)
 	os.Exit(code)
 }
